@@ -312,7 +312,31 @@ def reclaimable_bytes_key_table(ctx):
               "the shmem amount when no swap is usable" % (sorted(keys) or "no LRU key", (" and calls " + ", ".join(totals)) if totals else ""))
 
 
+def unreadable_pressure_stays_absent(ctx):
+    """'Reclaims only while memory and io some-pressure are below their targets': Senpai establishes that from what
+    CgroupContext::getMemPressure / getIoPressure hand out, and refuses to act on 'absent'.  Each value these two return is what the Fs
+    pressure reader read (through to_opt), and 'absent' when the read failed - never a default-constructed ResourcePressure standing in
+    for an unreadable file: all-zero pressure is 'below every target'."""
+    P = ctx.prog
+    n = 0
+    for q, rd in (("Oomd::CgroupContext::getMemPressure", "Mempressure"), ("Oomd::CgroupContext::getIoPressure", "Iopressure")):
+        f = ctx.use(ctx.fn1(q))
+        X = Expander(P, f)
+        for r, leaf in return_leaves(f):
+            n += 1
+            t = X(leaf)
+            ok = t in ("std::nullopt", "{}") or re.search(r"Fs::read(Root)?%s(At)?\(" % rd, t) is not None
+            made_up = re.search(r"ResourcePressure\s*(\{|\()", t) is not None and "Fs::read" not in t
+            ctx.check(ok and not made_up, "unreadable-pressure-stays-absent:%s@%d" % (short(f), f.nodes[r].get("line", 0)), "return_table (value provenance), helpers followed", f.loc(r),
+                      "the value returned is what the pressure reader read, or absent",
+                      "%s returns %s - a pressure value that was not read from the kernel file: with an unreadable %s the cgroup reports zero "
+                      "pressure, which is below every target, and Senpai reclaims without its pressure guard" % (f.pq, t[:80], "io.pressure" if rd == "Iopressure" else "memory.pressure"))
+    ctx.counters["pressure_getter_returns"] = n
+    ctx.floor("pressure_getter_returns", 2, "value returns of getMemPressure / getIoPressure")
+
+
 def run(ctx):
+    unreadable_pressure_stays_absent(ctx)
     floor_at_least_memory_min(ctx)
     ceiling_at_most_each_bound(ctx)
     reclaimable_bytes_key_table(ctx)
